@@ -95,7 +95,7 @@ def gen_case(rng, index, tier):
         op = gen_op(rng, small=rng.random() < (0.5 if tier == 'thorough' else 0.8))
         while op.get('f') == 'f_fails':
             op = gen_op(rng, small=True)
-        return dict(mode='enum', op=op, eseed=rng.randrange(1 << 30))
+        return dict(mode='enum', op=op, eseed=rng.randrange(1 << 30), over=rng.choice(['empty', 'empty', 'old_fail', 'bogus_long']))
     if rng.random() < 0.25:
         # contention: three (or two) callers ask for the SAME entry at once, often with a wrapped function that fails (once or always)
         op = rng.choice([dict(t='call', f='f_fails', args=[rng.choice([1, 2])], kw={}), dict(t='call', f='f_scalar', args=[rng.choice([1, 2])], kw={}),
@@ -611,20 +611,59 @@ def run_enum(case):
     order = []
     content = {}
     bounds = {}
+    fileops = {}
     for name, off, data in wlog:
         if name not in content:
             order.append(name)
             content[name] = b''
             bounds[name] = []
+            fileops[name] = []
+        if off == 'truncate':
+            fileops[name].append(('t', data))
+            content[name] = content[name][:data]
+            continue
         if off != len(content[name]):
             _unscratch(scratch)
             return dict(verdict='harness', vclass='non-sequential-entry-write', detail=f'{name}: write at {off}, have {len(content[name])}')
+        fileops[name].append(('w', off, data))
         content[name] += data
         bounds[name].append(len(content[name]))
+
+    def torn_state(name, b, before):
+        '''File content if the writer is killed after exactly b bytes of this entry have been written, replaying the recorded
+        operations (truncations included) over what the file held before.'''
+        buf = bytearray(before)
+        written = 0
+        for op in fileops[name]:
+            if op[0] == 't':
+                del buf[op[1]:]
+                continue
+            _, off, data = op
+            k = min(len(data), b - written)
+            if len(buf) < off:
+                buf.extend(b'\0' * (off - len(buf)))
+            buf[off:off + k] = data[:k]
+            written += k
+            if written >= b and k < len(data):
+                break
+            if written >= b:
+                break
+        return bytes(buf)
     final = {}
     for path in list_entries(cachedir):
         final[os.path.relpath(path, cachedir)] = open(path, 'rb').read()
     rel = {os.path.basename(k): k for k in final}
+    # what the entry held before the interrupted (re)write: nothing (fresh touch), or - for memoised functions - an entry
+    # in the documented old format that recorded a failure, or the suite's 'bogus' padded beyond the new length
+    old = {}
+    over = case.get('over', 'empty')
+    if over != 'empty' and op['t'] == 'call':
+        for name in order:
+            try:
+                value, log_ = pickle.loads(content[name])
+            except Exception:
+                continue
+            old[name] = pickle.dumps((log_, True, None)) + b'tail' * 8 if over == 'old_fail' else b'bogus' * (len(content[name]) // 5 + 3)
     evaluations = 0
     complete = True
     sigs = []
@@ -642,7 +681,7 @@ def run_enum(case):
                 open(p, 'wb').write(content[prev])
             p = os.path.join(cachedir, rel[name])
             os.makedirs(os.path.dirname(p), exist_ok=True)
-            open(p, 'wb').write(content[name][:b])
+            open(p, 'wb').write(torn_state(name, b, old.get(name) or b''))
             for attempt in (1, 2):
                 rec, tr = perform(op, cachedir)
                 evaluations += 1
@@ -655,11 +694,11 @@ def run_enum(case):
                     _unscratch(scratch)
                     rc = copy.deepcopy(case)
                     return dict(verdict='violation', vclass=bad[0], digest=None,
-                                detail=f'after a kill at byte {b} of {len(content[name])} while writing entry #{fi} ({name}), call number {attempt} afterwards: {bad[1]}')
+                                detail=f'after a kill at byte {b} of {len(content[name])} while writing entry #{fi} ({name}) over {"an empty file" if name not in old else over + " content"}, call number {attempt} afterwards: {bad[1]}')
             sigs.append((fi, b))
     _unscratch(scratch)
-    sig = core.sha([op_key(op), len(order), [len(content[n]) for n in order]])
-    res = dict(verdict='pass', vclass=None, detail=None, digest=sig, steps=0, fired={'KILL_AT_BYTE_OFFSET_ENUMERATED': len(sigs)}, family='enum', sig=sig,
+    sig = core.sha([op_key(op), over, len(order), [len(content[n]) for n in order]])
+    res = dict(verdict='pass', vclass=None, detail=None, digest=sig, steps=0, fired={'KILL_AT_BYTE_OFFSET_ENUMERATED': len(sigs), **({'KILL_WHILE_REWRITING_OVER_' + over.upper(): len(sigs)} if old else {})}, family='enum', sig=sig,
                nontrivial=bool(sigs), extra_distinct=len(sigs),
                probes=dict(mode_enum=1, enum_offsets=len(sigs), enum_calls_after_crash=evaluations, enum_entries=len(order), enum_all_offsets_of_all_entries=int(complete), served_from_cache=served,
                            enum_bytes=sum(len(content[n]) for n in order)))
